@@ -120,6 +120,11 @@ impl RecordBatchDecoder<'_> {
                     .ok_or(ArrowError::IpcError(format!(
                         "Missing variadic count for {data_type} column"
                     )))?;
+                if count < 0 {
+                    return Err(ArrowError::IpcError(format!(
+                        "Invalid variadic count for {data_type} column: {count}"
+                    )));
+                }
                 let count = count + 2; // view and null buffer.
                 let buffers = (0..count)
                     .map(|_| self.next_buffer())
@@ -219,13 +224,20 @@ impl RecordBatchDecoder<'_> {
                     self.next_buffer()?;
                 }
 
-                let type_ids: ScalarBuffer<i8> =
-                    self.next_buffer()?.slice_with_length(0, len).into();
+                // the node length is untrusted: the buffers must actually hold that many entries
+                let sliced = |buffer: Buffer, bytes: Option<usize>| match bytes {
+                    Some(bytes) if bytes <= buffer.len() => Ok(buffer.slice_with_length(0, bytes)),
+                    _ => Err(ArrowError::IpcError(format!(
+                        "Union buffer of {} bytes is too small for {len} values",
+                        buffer.len()
+                    ))),
+                };
+                let type_ids: ScalarBuffer<i8> = sliced(self.next_buffer()?, Some(len))?.into();
 
                 let value_offsets = match mode {
                     UnionMode::Dense => {
                         let offsets: ScalarBuffer<i32> =
-                            self.next_buffer()?.slice_with_length(0, len * 4).into();
+                            sliced(self.next_buffer()?, len.checked_mul(4))?.into();
                         Some(offsets)
                     }
                     UnionMode::Sparse => None,
@@ -607,7 +619,11 @@ impl<'a> RecordBatchDecoder<'a> {
                     ))
                 }
             } else {
-                assert!(variadic_counts.is_empty());
+                if !variadic_counts.is_empty() {
+                    return Err(ArrowError::IpcError(
+                        "Variadic buffer counts mismatched with schema".to_string(),
+                    ));
+                }
                 RecordBatch::try_new_with_options(schema, columns, &options)
             }
         } else {
@@ -628,7 +644,11 @@ impl<'a> RecordBatchDecoder<'a> {
                     ))
                 }
             } else {
-                assert!(variadic_counts.is_empty());
+                if !variadic_counts.is_empty() {
+                    return Err(ArrowError::IpcError(
+                        "Variadic buffer counts mismatched with schema".to_string(),
+                    ));
+                }
                 RecordBatch::try_new_with_options(schema, children, &options)
             }
         }
@@ -906,7 +926,9 @@ fn get_dictionary_values(
             // Read a single column
             let record_batch = RecordBatchDecoder::try_new(
                 buf,
-                batch.data().unwrap(),
+                batch.data().ok_or_else(|| {
+                    ArrowError::IpcError("Dictionary batch does not contain data".to_string())
+                })?,
                 Arc::new(schema),
                 dictionaries_by_id,
                 metadata,
